@@ -2,7 +2,8 @@
 (* Connection histories for the bridge: who closes first, with how much data   *)
 (* in flight in either direction, and the write/read size classes.             *)
 EXTENDS Naturals, Sequences, SequencesExt, FiniteSets, Json, IOUtils, TLC
-Dom == [ closer |-> {"client", "server", "client-then-server", "server-then-client", "client-abort", "server-abort"},
+Dom == [ closer |-> {"client", "server", "client-then-server", "server-then-client", "client-abort", "server-abort",
+                        "client-half-reply", "server-half-reply"},
          up     |-> {"none", "small", "in-flight-large"},
          down   |-> {"none", "small", "in-flight-large"},
          wseg   |-> {"1", "small", "1024", "1025", "64k"},
